@@ -55,6 +55,12 @@ def member(draw, name):
                 draw(st.sampled_from([1, 15, 28, 29, 30, 31])), draw(st.sampled_from([0, 12, 23])), draw(st.sampled_from([0, 30, 59])),
                 draw(st.sampled_from([0, 2, 58]))],
          "deflate": draw(st.booleans())}
+    # one member in eight cannot be unpacked (encrypted, or an unsupported compression method): it is a member all the same
+    odd = draw(st.sampled_from([None] * 7 + ["enc", "method"]))
+    if odd == "enc" and not isdir:
+        m["enc"] = True
+    elif odd == "method" and not isdir:
+        m["method"] = 6
     # clamp impossible days
     y, mo, d = m["dt"][:3]
     while True:
